@@ -389,6 +389,19 @@ func (s *SecureChannel) Receive(ctx context.Context) *MessageBody {
 					msg.Err = errors.Errorf("too many chunks: %d > %d", n, s.c.MaxChunkCount())
 					return msg
 				}
+				// Enforce the message size limit while buffering, not only once
+				// the final chunk arrives: otherwise a peer can park up to
+				// MaxChunkCount full-size chunks per request id.
+				var size uint64
+				for _, c := range s.chunks[reqID] {
+					size += uint64(len(c.Data))
+				}
+				if size > uint64(s.c.MaxMessageSize()) {
+					delete(s.chunks, reqID)
+					s.chunksMu.Unlock()
+					msg.Err = errors.Errorf("message too large: %d > %d", size, s.c.MaxMessageSize())
+					return msg
+				}
 				s.chunksMu.Unlock()
 				continue
 			}
